@@ -244,8 +244,20 @@ def step (st : St) (_n : Nat) (line : String) : St × List Finding :=
             some ⟨"C08", s!"a PDR naming application {id}, provisioned by an accepted PFD Management Request of this association, was refused (cause {getNat obs "cause"})"⟩ else none
         | none => none)
       let (st'', tf) := tableFindings st' obs true (if r.cause = 1 then "est" else "est-rejected")
+      -- C08: an accepted PFD Management Request replaces the whole table: an application it no longer lists gives no filter
+      let unprov := req.pdrs.filterMap fun p => match p.app with
+        | some id => if provisioned.contains id then none else some id
+        | none => none
+      let c08 : List Finding :=
+        if !unprov.isEmpty ∧ getNat obs "cause" = 1 ∧ r.cause != 1 then
+          [⟨"C08", s!"a PDR names application {unprov}, which the PFD Management Requests in force on this association do not provision (an accepted request replaces the whole table), yet the establishment was accepted"⟩]
+        else if !unprov.isEmpty ∧ getNat obs "cause" = 1 ∧ r.cause = 1 then
+          match tf.find? (fun f => f.prop = "model") with
+          | some f => [⟨"C08", s!"a PDR names application {unprov}, which the PFD Management Requests in force on this association do not provision, yet its entries are not those of a PDR without an application filter ({f.msg})"⟩]
+          | none => []
+        else []
       let qf := if getNat obs "cause" = 1 then qosFindings "est: " st.cfg (getStrs obs "tables") upSeid req.qers else []
-      (st'', fs ++ tf ++ qf)
+      (st'', fs ++ c08 ++ tf ++ qf)
     | "mod" =>
       let a := getNat j "a"
       let cpf : Option (Nat × Nat) := (getObj? j "cpf").map fun t => match arrNats t with
